@@ -130,7 +130,7 @@ def run(ck, ctx):
                                              kd[1].startswith(ctor_key[0])) or kd[0] == "n":
                             later.append(g.show(mres.args[i_], 2))
             ck.ob("R18.1", "the axis-name entries of meta cannot be overridden by other metadata (they are merged last)",
-                  mres.op == "Dict" and not later, meta, "NssGrid.__init__",
+                  (mres.op == "Dict" or mres is comps[0]) and not later, meta, "NssGrid.__init__",
                   ("merged after the axis names: " + "; ".join(later[:3])) if later else g.show(mres, 2),
                   construct="NssGrid.__init__: metadata merged after the axis names")
         else:
